@@ -65,6 +65,10 @@ pub enum Mt {
     Tie,
     /// mtime = previous mtime - dt (restored backup / clock skew).
     Back(u64),
+    /// mtime = simulated now + dt: a file stamped in the future (saved while the clock was
+    /// wrong, copied from a machine with a skewed clock). Later than anything seen so far;
+    /// a later edit stamped `Now` then lies *before* it.
+    Ahead(u64),
 }
 
 #[derive(Clone, PartialEq, Eq, Debug, Serialize, Deserialize)]
